@@ -219,6 +219,29 @@ class _BytesEval:
                     segs[idx] = self.byte_of(st.value, env, fn)
                     env[tgt.value.id] = ("bytes", segs)
                     continue
+                if isinstance(tgt, ast.Subscript) and isinstance(tgt.value, ast.Name) and env.get(tgt.value.id, ("",))[0] == "bytes" \
+                        and isinstance(tgt.slice, ast.Slice) and tgt.slice.step is None:
+                    # data[a:b] = <byte string of b - a bytes>  (e.g. (x & 0xFFFF).to_bytes(2, 'big'), a constant header)
+                    segs = list(env[tgt.value.id][1])
+                    try:
+                        lo = self.prog.consteval(_subst(tgt.slice.lower, self._scalar_env(env)), fn.module) if tgt.slice.lower is not None else 0
+                        hi = self.prog.consteval(_subst(tgt.slice.upper, self._scalar_env(env)), fn.module) if tgt.slice.upper is not None else len(segs)
+                    except NotConst:
+                        raise AnalysisError("%s stores at a non-constant slice %s" % (fn.short, norm(tgt.slice)))
+                    v = self.ev(st.value, env, fn, depth)
+                    if v[0] == "scalar":
+                        try:
+                            cv = self.prog.consteval(v[1], fn.module)
+                            if isinstance(cv, (bytes, bytearray)):
+                                v = ("bytes", ["const:%d" % b for b in cv])
+                        except NotConst:
+                            pass
+                    if v[0] != "bytes" or not (0 <= lo <= hi <= len(segs)) or len(v[1]) != hi - lo \
+                            or any(isinstance(x, tuple) and x[0] == "payload" for x in segs[:hi] + list(v[1])):
+                        raise AnalysisError("statement %s of %s is not understood by the frame builder analysis" % (norm(st)[:60], fn.short))
+                    segs[lo:hi] = list(v[1])
+                    env[tgt.value.id] = ("bytes", segs)
+                    continue
             if isinstance(st, ast.AugAssign) and isinstance(st.op, ast.Add) and isinstance(st.target, ast.Name) and env.get(st.target.id, ("",))[0] == "bytes":
                 v = self.ev(st.value, env, fn, depth)
                 if v[0] == "scalar" and isinstance(v[1], ast.Name):
@@ -894,11 +917,104 @@ def _next_tx_invariant(ctx: Ctx, fn: FuncInfo) -> Tuple[bool, str]:
     return False, reason
 
 
+def _inline_tx_counter(ctx: Ctx, rep: Report) -> bool:
+    """The transaction id kept and advanced inside ModbusTcpProtocolCommand.request_bytes itself (no _next_tx function):
+    the counter must be ONE cell for the whole process (a module global or an attribute of an explicitly named class - not
+    of type(self) / self, which gives one counter per concrete command class / per command), and its update, followed from
+    the initial value through a full cycle, must always produce a non-zero 16-bit value different from the previous one."""
+    import copy
+    prog = ctx.prog
+    tcp = prog.cls("ModbusTcpProtocolCommand")
+    rb = tcp.methods.get("request_bytes")
+    if rb is None:
+        return False
+    aliases = {}
+    update = splice = None
+    for st in rb.node.body:
+        if isinstance(st, ast.Assign) and len(st.targets) == 1 and isinstance(st.targets[0], ast.Name) and isinstance(st.value, (ast.Call, ast.Attribute)) \
+                and norm(st.value) in ("type(self)", "self.__class__"):
+            aliases[st.targets[0].id] = st.value
+        elif isinstance(st, (ast.Assign, ast.AugAssign)):
+            tgt = st.targets[0] if isinstance(st, ast.Assign) else st.target
+            if norm(tgt) == "self.request":
+                splice = st
+            elif update is None and isinstance(tgt, (ast.Attribute, ast.Name)):
+                update = st
+    if update is None or splice is None:
+        return False
+    cell = update.targets[0] if isinstance(update, ast.Assign) else update.target
+    v = splice.value
+    okshape = isinstance(v, ast.BinOp) and isinstance(v.op, ast.Add) and isinstance(v.right, ast.Subscript) and isinstance(v.right.slice, ast.Slice) \
+        and norm(v.right.value) == "self.request" and v.right.slice.lower is not None and _const(prog, rb, v.right.slice.lower) == 2 and v.right.slice.upper is None
+    sym = Sym.for_function(prog, rb)
+    tb = sym.lin(v.left).single_term() if okshape else None
+    okshape = okshape and tb is not None and tb[0] == "tobytes" and tb[2] == 2 and tb[3] == "big" and not tb[4] and \
+        (tb[1][1] if tb[1][0] == "lin" else Lin.of_term(tb[1])) == sym.lin(cell)
+    rep.check(okshape, "C03.R4", "stamp:%s" % rb.short, rb.loc(splice), "%s splices the counter, as 2 unsigned big-endian bytes, over bytes [0:2] of the frame" % rb.short,
+              bad="%s: the new transaction id is not spliced as <counter>.to_bytes(2, 'big') + <frame>[2:]" % rb.short)
+    # one cell
+    recv = cell.value if isinstance(cell, ast.Attribute) else None
+    if recv is None:
+        single = any(isinstance(n, ast.Global) and cell.id in n.names for n in ast.walk(rb.node))
+        where = "the local name %s" % cell.id
+        init_e = (rb.module.scope.get(cell.id) or (None, None))[1] if single else None
+    else:
+        r0 = aliases.get(recv.id, recv) if isinstance(recv, ast.Name) else recv
+        b = prog.lookup(rb.module, r0.id) if isinstance(r0, ast.Name) else None
+        single = bool(b and b[0] == "class")
+        where = norm(r0)
+        owner = b[1] if single else tcp
+        init_e = next((c.class_attrs[cell.attr] for c in prog.mro(owner) if isinstance(c, ClassInfo) and cell.attr in c.class_attrs), None)
+    rep.check(single, "C03.R4", "one-counter", rb.loc(update), "the transaction counter is one cell (%s)" % norm(cell),
+              bad="the transaction counter is stored on %s: every concrete command class (read / write / write-multi) - or every command object - counts on its own, "
+                  "so consecutive transmissions of different kinds can carry the same transaction id" % where)
+    # the update, followed from the initial value
+    init = _const(prog, rb, init_e) if init_e is not None else None
+    if not isinstance(init, int):
+        rep.violation("C03.R4", "next-tx", rb.loc(update), "the initial value of the transaction counter %s is not a constant" % norm(cell))
+        return True
+    if isinstance(update, ast.AugAssign):
+        expr = ast.BinOp(left=copy.deepcopy(cell), op=update.op, right=update.value)
+    else:
+        expr = update.value
+    key = norm(cell)
+
+    class Put(ast.NodeTransformer):
+        def __init__(self, c):
+            self.c = c
+
+        def generic_visit(self, n):
+            if isinstance(n, (ast.Attribute, ast.Name)) and norm(n) == key:
+                return ast.Constant(value=self.c)
+            return super().generic_visit(n)
+    cur, why, seen = init, "", set()
+    for _ in range(0x10000 + 2):
+        try:
+            nxt = prog.consteval(ast.fix_missing_locations(Put(cur).visit(copy.deepcopy(expr))), rb.module)
+        except NotConst:
+            raise AnalysisError("the transaction counter update %s cannot be evaluated" % norm(expr))
+        if not isinstance(nxt, int) or not (1 <= nxt <= 0xFFFF):
+            why = "from %d the update %s produces %r, not a non-zero 16-bit id" % (cur, norm(expr), nxt)
+            break
+        if nxt == cur:
+            why = "the update %s leaves the id %d unchanged" % (norm(expr), cur)
+            break
+        if nxt in seen:
+            break
+        seen.add(nxt)
+        cur = nxt
+    rep.check(not why, "C03.R4", "next-tx", rb.loc(update), "the counter update %s yields a different non-zero 16-bit id on every transmission (%d values followed from %d)" % (norm(expr), len(seen), init),
+              bad="transaction counter: %s" % why)
+    return True
+
+
 def r4(ctx: Ctx, rep: Report):
     prog = ctx.prog
-    fn = prog.func("protocol._next_tx")
-    ok, why = _next_tx_invariant(ctx, fn)
-    rep.check(ok, "C03.R4", "next-tx", fn.loc(), "_next_tx: %s" % why, bad="_next_tx: %s: the transaction id may become 0, repeat, or overflow two bytes" % why)
+    inline = not prog.has_func("protocol._next_tx") and _inline_tx_counter(ctx, rep)
+    if not inline:
+        fn = prog.func("protocol._next_tx")
+        ok, why = _next_tx_invariant(ctx, fn)
+        rep.check(ok, "C03.R4", "next-tx", fn.loc(), "_next_tx: %s" % why, bad="_next_tx: %s: the transaction id may become 0, repeat, or overflow two bytes" % why)
     # the id is renewed for every transmission: every _next_tx() call site splices the id over bytes [0:2] of the frame and
     # lies in a function the TCP _send_request reaches before its transport write (request_bytes of the Modbus/TCP commands)
     res = ctx.res
@@ -908,8 +1024,8 @@ def r4(ctx: Ctx, rep: Report):
         raise AnalysisError("no stream protocol class found")
     sr = method(ctx, tcp_proto[0], "_send_request")
     reach = res.reachable([sr])
-    sites = [(f, n) for f in res.all_funcs() for n in res._own_nodes(f) if isinstance(n, ast.Call) and norm(n.func) == "_next_tx"]
-    if not sites:
+    sites = [(f, n) for f in res.all_funcs() for n in res._own_nodes(f) if isinstance(n, ast.Call) and norm(n.func) == "_next_tx"] if not inline else []
+    if not sites and not inline:
         rep.violation("C03.R4", "stamp-sites", fn.loc(), "_next_tx() is never called: Modbus/TCP frames keep the placeholder transaction id")
     for f, n in sites:
         from ..astutil import single_assignments
@@ -928,7 +1044,7 @@ def r4(ctx: Ctx, rep: Report):
                   bad="%s: %s" % (f.short, "the new transaction id is not spliced as _next_tx() + <frame>[2:]" if not spliced else
                                   "the transaction id is renewed in %s, which %s does not run for each transmission: a retransmission repeats the id of the lost frame" % (f.short, sr.short)))
     # every path of the stream protocol's _send_request renews the id before it writes
-    stampers = {f.qualname for f, _ in sites}
+    stampers = {f.qualname for f, _ in sites} if not inline else {tcp.methods["request_bytes"].qualname}
     for p in enumerate_paths(prog, sr, no_raise):
         sends = [i for i, ev in enumerate(p.events) if ev.kind == "call" and "send" in tags(ev)]
         if not sends:
